@@ -146,7 +146,10 @@ func c02MakeList(c *core.Ctx) *c02List {
 			}
 			t := ip + " " + strings.Join(ns, []string{" ", "\t", "  "}[c.Rng.Intn(3)])
 			if c.Rng.Intn(3) == 0 {
-				t += " # comment"
+				// Trailing comments as hosts files have them, also quoting
+				// rules of other kinds.
+				t += []string{" # comment", " # comment", "\t# tab", " ## phishing", " # was: " + ns[0] + "##.banner", " #moved#@#old", " # see " + ns[0] + "#$#body { x }",
+					" # a#?#b #%#c", "  #   ||" + ns[0] + "^", " # 0.0.0.0 other.example", " #! not a rule"}[c.Rng.Intn(11)]
 			}
 			l.lines = append(l.lines, t)
 			l.hosts = append(l.hosts, c02HostLine{t, ns, !strings.Contains(ip, ":")})
@@ -342,6 +345,15 @@ func c02Run(c *core.Ctx, idx int) {
 		contents = append(contents, util.LinesEOL(p, []string{"\n", "\n", "\r\n"}[c.Rng.Intn(3)]))
 	}
 	storage := util.Storage(contents...)
+	// DNS-level filtering has no use for cosmetic rules: lists are commonly
+	// loaded without them.
+	ignoreCosmetic := c.Rng.Intn(2) == 0
+	if ignoreCosmetic {
+		if s, serr := util.StorageIDs(util.ListIDs(contents...), contents, true); serr == nil {
+			storage = s
+			c.Event("storages_loaded_without_cosmetic_rules", 1)
+		}
+	}
 	if c.Rng.Intn(6) == 0 {
 		// The same lists backed by files.
 		if dir, derr := os.MkdirTemp(filepath.Join(c.Env.VerifDir, ".work"), "c02f."); derr == nil {
@@ -352,7 +364,7 @@ func c02Run(c *core.Ctx, idx int) {
 				if os.WriteFile(fn, []byte(content), 0o644) != nil {
 					break
 				}
-				fl, ferr := filterlist.NewFileRuleList(i, fn, false)
+				fl, ferr := filterlist.NewFileRuleList(i, fn, ignoreCosmetic)
 				if ferr != nil {
 					break
 				}
@@ -598,6 +610,7 @@ func init() {
 		ID:    "C02",
 		Level: "exploration",
 		Rule: "per case a list of 4..44 lines mixing adblock-style rules (DNS-level modifiers only / browser-only modifiers / any mix, $dnsrewrite, badfilter twins), hosts lines (IPv4, IPv6, several names, comments), bare domains and inert lines, over host names that include FastHash-colliding groups, split into 1..3 lists; 24 DNS requests per list varying record type, client name/IP, sorted tags and perturbed host names; plus testdata/hosts + adguard_sdn_filter.txt against real and perturbed host names; " +
+			"half of the storages are loaded with IgnoreCosmetic, hosts lines carry trailing comments that quote rules of other kinds; " +
 			"oracle = scan of every rule with a fresh request: NetworkRules as a text set, nil-ness and class of NetworkRule, membership in the effective candidates, host rules only without a basic rule and split by address family, matched flag, empty hostname; non-trivial = request with at least one expected rule; distinct by (request, list)",
 		Assumptions: []string{
 			"rules carrying only {important, badfilter, dnstype, dnsrewrite, ctag, client, denyallow} must be used, rules with $domain, third-/first-party, document-level or cosmetic exception options, stealth, popup, empty, mp4 must be ignored; content-type modifiers and match-case are don't-care (the engine's own IsHostLevelNetworkRule decides)",
